@@ -74,8 +74,10 @@ EmitFen(c) ==
 \* ---- hash variants ------------------------------------------------------
 \* rel: "same" (must hash equal), "diff" (must hash differently), "free" (unconstrained)
 Variants(p) ==
-  LET rightsDrop == { [q |-> [p EXCEPT !.castle = p.castle \ {r}], rel |-> "diff", why |-> "castling right removed"] : r \in p.castle }
-      rightsAdd == { [q |-> [p EXCEPT !.castle = p.castle \cup {r}], rel |-> "diff", why |-> "castling right added"] : r \in HomeRights(p.board) \ p.castle }
+  LET \* every other set of castling rights the placement admits (single rights, both rights of a colour, all, swaps)
+      rightsDrop == { [q |-> [p EXCEPT !.castle = R], rel |-> "diff", why |-> IF R \subseteq p.castle THEN "castling right removed" ELSE "castling right added"] :
+                        R \in (SUBSET HomeRights(p.board)) \ {p.castle} }
+      rightsAdd == {}
       epClear == IF p.ep = 0 THEN {} ELSE { [q |-> [p EXCEPT !.ep = 0], rel |-> IF EpLegal(p) THEN "diff" ELSE "free", why |-> "en-passant target cleared"] }
       epSet == IF p.ep # 0 THEN {} ELSE
                { [q |-> [p EXCEPT !.ep = s], rel |-> IF EpLegal([p EXCEPT !.ep = s]) THEN "diff" ELSE "free", why |-> "en-passant target set"] :
